@@ -62,6 +62,11 @@ func NewDirect(impl SvcServer, o DirectOpts) *Direct {
 	if !o.NoClient {
 		d.CC = goat.NewClientConn(d.Pipe.A, "cli", "srv", o.DialOpts...)
 	}
+	if Preamble != "" {
+		k := Preamble
+		Preamble = ""
+		runPreamble(d, impl, k)
+	}
 	return d
 }
 
